@@ -8,12 +8,13 @@ from . import trace as T
 # property -> configuration
 PLAN = {
     "C02": dict(families=[("comp", 36, 400)], oracle=lambda h: [f for f in T.oracle_components(h) if f[0] == "C02"],
-                slices=["comp"], ref="§7 C02"),
+                slices=["comp", "mark"], ref="§7 C02"),
     "C10": dict(families=[("comp", 36, 400)], oracle=lambda h: [f for f in T.oracle_components(h) if f[0] == "C10"],
                 slices=["comp"], ref="§7 C10"),
-    "C09": dict(families=[("comp", 30, 300)], oracle=lambda h: [f for f in T.oracle_components(h) if f[0] == "C09"],
+    "C09": dict(families=[("comp", 30, 300), ("ent", 16, 160)],
+                oracle=lambda h: [f for f in (T.oracle_components(h) if h.family != "ent" else T.oracle_entities(h)) if f[0] == "C09"],
                 slices=["comp"], ref="§7 C09"),
-    "C01": dict(families=[("ent", 40, 400)], oracle=lambda h: T.oracle_entities(h), slices=["ent"], ref="§7 C01"),
+    "C01": dict(families=[("ent", 40, 400)], oracle=lambda h: [f for f in T.oracle_entities(h) if f[0] == "C01"], slices=["ent"], ref="§7 C01"),
     "C15": dict(families=[("conn", 40, 400)], oracle=lambda h: T.oracle_conn(h), slices=["conn"], ref="§7 C15"),
     "C05": dict(families=[("parent", 36, 400)], oracle=lambda h: T.oracle_parents(h), slices=["parent"], ref="§7 C05"),
     "C04": dict(families=[("filter", 30, 300)], oracle=lambda h: T.filter_checks(h)[1], slices=["filter"], ref="§7 C04"),
@@ -137,11 +138,15 @@ def check(prop_id, tier, seed, replay=None):
             for l in T.asset_lines(h, flags.get("assetTokensCounted", True), flags.get("assetRequestSkipsServed", False)):
                 inst_of[l.split(" ")[1]] = (h, {})
                 lines.append(l)
+        if "mark" in plan["slices"]:
+            for l in T.mark_lines(h, not flags.get("detectSeesNewSyncEntity", True)):
+                inst_of[l.split(" ")[1]] = (h, {})
+                lines.append(l)
         if "fixrun" in plan["slices"]:
             for l in T.fix_cases(h, flags.get("fixReinsertsValue", False))[0]:
                 inst_of[l.split(" ")[1]] = (h, {})
                 lines.append(l)
-        for kind in [k for k in plan["slices"] if k not in ("fault", "skin", "fixrun", "filter", "conn", "asset")]:
+        for kind in [k for k in plan["slices"] if k not in ("fault", "skin", "fixrun", "filter", "conn", "asset", "mark")]:
             for inst, ls, meta in slice_lines(h, kind, flags):
                 if ls is None:
                     skipped += 1
